@@ -194,8 +194,9 @@ TIMEDELTA = Palette("timedelta", "timedelta",
                     [np.timedelta64(-5, "s"), np.timedelta64(0, "s"), np.timedelta64(3, "s"), np.timedelta64(10**9, "s")],
                     na=np.timedelta64("NaT"), as_array=True, full_dtype="timedelta64[s]")
 BYTES = Palette("bytes", "bytes", [b"A", b"a", b"ab", b"b"], has_na=False, full_dtype="S2")
-# numbers in an object column: numeric order (-10 < 2 < 9 < 100) differs from the order of their texts ("-10" < "100" < "2" < "9")
-OBJ_INT = Palette("obj/int", "obj", [-10, 2, 9, 100], na=None, dtype=object)
+# numbers in an object column: numeric order (-10 < 9 < 100 < 1000) differs from the order of their texts ("-10" < "100" < "1000" < "9"),
+# already among the first three values (the quick tiers use three classes)
+OBJ_INT = Palette("obj/int", "obj", [-10, 9, 100, 1000], na=None, dtype=object)
 
 ALL = [FLOAT_INF, FLOAT_BIG, FLOAT_HUGE, FLOAT_HASH, INT_SMALL, INT_BIG, INT_HASH, UINT8, STR_SHORT, STR_LONG, STR_MIXED, STR_FIXED,
        STR_ASTRAL, BOOL, DATE, DATETIME, TIMEDELTA, BYTES, OBJ_INT]
